@@ -209,3 +209,47 @@ func c19ctor(c *core.Ctx) {
 	})
 	c.Check(appendOK && !indexWrite, R, "NewStringSet:order", c.P.Pos(d.Decl.Pos()), "NewStringSet appends to the order list", "the order list is written by position: skipped duplicates leave empty entries, Len() and Data() disagree")
 }
+
+// c13parse: the exponent parser refuses nothing but non-digits and overflow.
+func c13parse(c *core.Ctx) {
+	const R = "C13.parse"
+	c.Rule(R, "bytes.Bytes.ParseUint (which reads the exponent of a number through ParseInt) returns an error only under one of three conditions: the text is empty (`len(...) == 0`), a byte is not a digit (`!IsDigit(c)`), or the accumulation would overflow (a comparison against math.MaxUint). Any other rejecting condition - a limit on the number of bytes, say - refuses valid numbers: an exponent may be written with leading zeros (1e000000000000000000002 = 100)")
+	c.Floor(R, 3)
+	d := c.P.FindDecl("(bytes.Bytes).ParseUint")
+	if d == nil {
+		c.Unresolved(R, "(bytes.Bytes).ParseUint")
+		return
+	}
+	var stack []ast.Node
+	n := 0
+	ast.Inspect(d.Decl.Body, func(nd ast.Node) bool {
+		if nd == nil {
+			stack = stack[:len(stack)-1]
+			return true
+		}
+		stack = append(stack, nd)
+		ret, ok := nd.(*ast.ReturnStmt)
+		if !ok || len(ret.Results) != 2 || core.ExprStr(ret.Results[1]) == "nil" {
+			return true
+		}
+		n++
+		cond := ""
+		for i := len(stack) - 2; i >= 0; i-- {
+			if ifs, ok := stack[i].(*ast.IfStmt); ok {
+				cond = core.ExprStr(ifs.Cond)
+				break
+			}
+		}
+		okCond := false
+		switch {
+		case strings.HasPrefix(cond, "len(") && strings.HasSuffix(cond, " == 0"):
+			okCond = true
+		case strings.HasPrefix(cond, "!IsDigit("):
+			okCond = true
+		case strings.Contains(cond, "math.MaxUint"):
+			okCond = true
+		}
+		c.Check(okCond, R, core.F("ParseUint:reject#%d", n), c.P.Pos(ret.Pos()), "error return of ParseUint under `"+cond+"`", "an extra rejecting condition: valid decimal texts (e.g. an exponent with leading zeros) are refused")
+		return true
+	})
+}
